@@ -1186,3 +1186,23 @@ def run_len_tables(chk, F, fs, tier, rule):
                 prob = prob or "on [%d, %d] the length with the table option is %s, without it %s" % (
                     lo, hi, va[2:4] if va else a.d["why"], vb[2:4] if vb else b.d["why"])
         chk.expect(rule, key, prob is None and n > 0, "%s: %s" % (key, prob or "nothing compared"), sample={"fn": key, "cells": n})
+
+
+def vbyte_writes_clean(F, fs, which):
+    """every write_bits(v, n) the bit-stream VByte writer `which` (be | le) issues has v < 2^n, for every 64-bit value (the
+    writer interpreted on the whole domain) -> (ok, text)"""
+    res = evaluate(F, fs, [j for j in writer_jobs("quick") if j[0].startswith("w.vbyte_%s." % which)])
+    n = 0
+    for key, r in sorted(res.items()):
+        if "unsupported" in r:
+            return False, "%s cannot be evaluated: %s" % (key, r["unsupported"])
+        for c in r["cells"]:
+            if c["status"] != "ok":
+                return False, "%s: %s on [%d, %d]" % (key, c["why"], c["y0"], c["y1"])
+            for ev in c["events"]:
+                if ev[0] == "bits":
+                    v, w = ev[1], ev[2]
+                    n += 1
+                    if not (v[0] == "int" and w[0] == "int" and w[2] == w[3] and v[2] >= 0 and v[3] < (1 << w[2])):
+                        return False, "%s: on [%d, %d] a write of %s bits carries a value in [%s, %s]" % (key, c["y0"], c["y1"], w[2:4], v[2], v[3])
+    return n > 0, "every emitted field within its width on every cell (%d writes over all 64-bit values)" % n
